@@ -681,6 +681,28 @@ fn check_tightened(run: &Run, text: &str, label: &str, loc: &mut BTreeMap<&'stat
         // all three at their measured values together
         push("all-three-at-measured", r_meas, d_meas, e_meas, ub(), None);
     }
+    let mut extra: Vec<Probe> = Vec::new();
+    // the alias limits are independent of the budget: the same probes with `Options::budget = None`
+    if model.all.aliases > 0 {
+        let mut push_nb = |name: &'static str, t: u64, s: u64, a: u64, want| {
+            let lim = json!({"probe": name, "budget": null, "max_total_replayed_events": t, "max_replay_stack_depth": s, "max_alias_expansions_per_anchor": a});
+            let mut o = alias_opts(t as usize, s as usize, a as usize, ub());
+            #[allow(deprecated)]
+            {
+                o.budget = None;
+            }
+            extra.push(Probe { name, opts: o, max_nodes: u64::MAX, max_events: u64::MAX, want, lim });
+        };
+        push_nb("no-budget:replayed=R", r_meas, um, um, None);
+        if r_meas >= 1 {
+            push_nb("no-budget:replayed=R-1", r_meas - 1, um, um, Some(("AliasReplayLimitExceeded", None)));
+        }
+        push_nb("no-budget:per-anchor=E", um, um, e_meas, None);
+        push_nb("no-budget:per-anchor=E-1", um, um, e_meas - 1, Some(("AliasExpansionLimitExceeded", None)));
+        push_nb("no-budget:stack=D", um, d_meas, um, None);
+        push_nb("no-budget:stack=D-1", um, d_meas - 1, um, Some(("AliasReplayStackDepthExceeded", None)));
+    }
+
     {
         let n = model.all.nodes;
         let mut b = ub();
@@ -702,6 +724,7 @@ fn check_tightened(run: &Run, text: &str, label: &str, loc: &mut BTreeMap<&'stat
             push("events=E-2", um, um, um, b, Some(("Budget", Some("events"))));
         }
     }
+    probes.extend(extra);
     for p in probes {
         run.eval();
         let (r, mon, callbacks) = run_monitored(text, p.opts, model.max_anchor_id);
